@@ -656,14 +656,12 @@ impl OptimizedDictionaryCompressor {
                                 continue;
                             }
 
-                            // Verify the pattern matches (hash collision check)
-                            if suffix_pos + self.min_match_length <= self.text.len() {
-                                let training_pattern =
-                                    &self.text[suffix_pos..suffix_pos + self.min_match_length];
-                                if training_pattern != pattern {
-                                    continue; // Hash collision, skip
-                                }
-                            } else {
+                            // A match is emitted as a back-reference into the OUTPUT, which the decoder
+                            // resolves against what it has already produced, i.e. against `data` itself.
+                            // The training text only proposes candidate positions: verify (hash collision,
+                            // training text different from the payload) and extend against `data`.
+                            // suffix_pos < pos, so every index below stays inside `data`.
+                            if &data[suffix_pos..suffix_pos + self.min_match_length] != pattern {
                                 continue;
                             }
 
@@ -672,8 +670,7 @@ impl OptimizedDictionaryCompressor {
                             let mut match_length = self.min_match_length;
 
                             while match_length < max_possible
-                                && suffix_pos + match_length < self.text.len()
-                                && self.text[suffix_pos + match_length] == data[pos + match_length]
+                                && data[suffix_pos + match_length] == data[pos + match_length]
                             {
                                 match_length += 1;
                             }
@@ -708,14 +705,17 @@ impl OptimizedDictionaryCompressor {
                                     continue;
                                 }
 
+                                // The suffix array range is a proposal as well: verify against `data`
+                                if &data[suffix_pos..suffix_pos + self.min_match_length] != pattern {
+                                    continue;
+                                }
+
                                 // Extend the match as far as possible
                                 let max_possible = (data.len() - pos).min(self.max_match_length);
                                 let mut match_length = self.min_match_length;
 
                                 while match_length < max_possible
-                                    && suffix_pos + match_length < self.text.len()
-                                    && self.text[suffix_pos + match_length]
-                                        == data[pos + match_length]
+                                    && data[suffix_pos + match_length] == data[pos + match_length]
                                 {
                                     match_length += 1;
                                 }
